@@ -157,12 +157,12 @@ AskAll(o) ==
     /\ Room /\ st.heap[o].status = "loose" /\ AskedOf(st.heap[o].cfg) # {}
     /\ st' = DoAskAll(st, o, st.heap[o].cfg)
     /\ UNCHANGED last
-    /\ Log([op |-> "AskAll", o |-> o, qs |-> QsJson(st.heap[o].cfg)])
+    /\ Log([op |-> "AskAll", o |-> o, cfg |-> st.heap[o].cfg])          \* (the questions are written out by Finish)
 AskAllKey(k) ==
     /\ Room /\ st.reg[k] # 0 /\ AskedOf(last[k][1]) # {}
     /\ st' = DoAskAll(st, st.reg[k], last[k][1])
     /\ UNCHANGED last
-    /\ Log([op |-> "AskAllKey", k |-> k, qs |-> QsJson(last[k][1])])
+    /\ Log([op |-> "AskAllKey", k |-> k, cfg |-> last[k][1]])
 \* ---- the caller's own actions -------------------------------------------------------------------
 SetAdj(o, a) ==
     /\ Room /\ st.heap[o].status = "loose" /\ st.heap[o].cfg.adj # a
@@ -228,7 +228,11 @@ FinalsOf(s, l) ==
                   x \in {y \in (1..Len(s.heap)) \X QM : s.heap[y[1]].status = "loose" /\ Askable(s.heap[y[1]], y[2])}}
     IN  [fetch |-> SetToSeq(ff), query |-> SetToSeq(fq), queryobj |-> SetToSeq(fo)]
 Complete == KeepHist /\ Len(hist) = Depth
-Finish  == Complete /\ PrintT(ToJson([hist |-> hist, finals |-> FinalsOf(st, last)])) /\ UNCHANGED vars
+\* (the questions of an AskAll and the answers the law expects are written out only when the history is printed: the
+\*  simulator evaluates every successor of every step, chosen or not)
+Written(ev) == IF ev.op = "AskAll" THEN [op |-> ev.op, o |-> ev.o, qs |-> QsJson(ev.cfg)]
+               ELSE IF ev.op = "AskAllKey" THEN [op |-> ev.op, k |-> ev.k, qs |-> QsJson(ev.cfg)] ELSE ev
+Finish  == Complete /\ PrintT(ToJson([hist |-> [i \in 1..Len(hist) |-> Written(hist[i])], finals |-> FinalsOf(st, last)])) /\ UNCHANGED vars
 NextGen == \/ \E k \in Pick(1, Keys), P \in PickParams(Fan) : Register(k, P)
            \/ \E x \in Pick(1, Keys \X ConParams \X ConAdjs) : Construct(x[1], x[2], x[3])
            \/ \E o \in Pick(2, Objs) : RegisterObject(o)
